@@ -35,3 +35,26 @@ fn k3_max_timer_delay_value() {
     assert!(m <= MAX_TIMER_DELAY && m <= d && (m == d || m == MAX_TIMER_DELAY), "C16: clamped delay never exceeds the range");
 }
 
+
+/// C16: rendering the `rpc.deadline` span field can never fail: for every deadline and every
+/// wall-clock time (>= the epoch) the helper neither overflows nor hands humantime a timestamp
+/// it cannot render (humantime::format_rfc3339 errors only from 10000-01-01T00:00:00Z on).
+#[kani::proof]
+#[kani::stub(std::time::Instant::now, crate::verif_kani_support::fake_now)]
+#[kani::stub(std::time::SystemTime::now, crate::verif_kani_support::fake_sys_now)]
+#[kani::unwind(3)]
+fn k3_deadline_field_always_renderable() {
+    let now = any_instant();
+    let d = any_instant();
+    set_now(now);
+    let wall_secs: i64 = kani::any();
+    let wall_nanos: u32 = kani::any();
+    kani::assume(wall_secs >= 0 && wall_secs < (1i64 << 40) && wall_nanos < 1_000_000_000);
+    set_sys_now(wall_secs, wall_nanos);
+    let shown = super::deadline_rfc3339(&d);
+    let t = *shown.get_ref();
+    let since_epoch = t.duration_since(std::time::SystemTime::UNIX_EPOCH);
+    kani::cover!(gt(d, now), "reachable: future deadline");
+    assert!(since_epoch.is_ok(), "C16: not before the epoch");
+    assert!(since_epoch.unwrap().as_secs() < 253_402_300_800, "C16: within what humantime can render (year <= 9999)");
+}
